@@ -234,7 +234,8 @@ def jobs(tier):
         out.append(('post', 'case_post', dict(
             units=c, n_samples=2, n_out=2, times=[2.5, 1.0],
             sigma_fixed=(k != 1), log_scale=(k == 2)),
-            {'max_paths': 64, 'job_timeout_s': 300}))
+            {'max_paths': 64, 'job_timeout_s': 300,
+             'max_violations_per_case': 4}))
     cov = [c for c in c02.compositions(2, [2], covs=(0, 1))
            if any(u['cov'] for u in c)]
     cov = cov[::6] if q else cov[::2]
